@@ -192,7 +192,7 @@ theorem mem_all' {α} {l : List α} {q : α → Bool} (h : l.all q = true) {a : 
 /-- a configuration with the `setdefault` merge (for the example below) -/
 def cfgNested : Cfg :=
   { order := [.destroy, .stopScenarios, .stopBehaviors, .disableProxies, .endSimulation],
-    merge := .keepOldest, stopClears := true, agentsEarly := true }
+    merge := .keepOldest, stopClears := true, agentsEarly := true, destroyGuarded := false }
 
 /-- remembered values of the live frames created after the first `n0` -/
 def liveSaved (n0 : Nat) (frames : List Frame) : List Saved := ((frames.drop n0).filter isLive).map (·.saved)
